@@ -541,6 +541,9 @@ func (fc *FnCtx) autoLemmasExcept(st *State, except string) {
 			if lm.Auto == "" {
 				continue
 			}
+			if !fc.lemmaTypesResolvable(lm, cs) {
+				continue // the lemma talks about a library this package does not use
+			}
 			homePkg := fc.eng.pkgOfContractSet(cs)
 			if homePkg == nil {
 				homePkg = fc.pkg.Types
@@ -592,4 +595,35 @@ func (fc *FnCtx) autoLemmasExcept(st *State, except string) {
 			fc.addAxiom(key, ax)
 		}
 	}
+}
+
+func (fc *FnCtx) lemmaTypesResolvable(lm *Lemma, cs *ContractSet) bool {
+	homePkg := fc.eng.pkgOfContractSet(cs)
+	if homePkg == nil {
+		homePkg = fc.pkg.Types
+	}
+	for _, p := range lm.Params {
+		if fc.tryResolveType(p.Type, homePkg) == nil {
+			return false
+		}
+	}
+	ok := true
+	var walk func(e *SExpr)
+	walk = func(e *SExpr) {
+		if e == nil {
+			return
+		}
+		for _, v := range e.Vars {
+			if fc.tryResolveType(v.Type, homePkg) == nil {
+				ok = false
+			}
+		}
+		for _, a := range e.Args {
+			walk(a)
+		}
+	}
+	for _, c := range append(append([]*Clause{}, lm.Requires...), lm.Ensures...) {
+		walk(c.E)
+	}
+	return ok
 }
